@@ -15,6 +15,7 @@ mod resring;
 mod asyncsend;
 mod teardown;
 mod life;
+mod exec;
 
 use std::io::{BufRead, Write};
 
@@ -46,6 +47,8 @@ fn main() {
             "async" => asyncsend::run(&case),
             "teardown" => teardown::run(&case),
             "life" => life::run(&case),
+            "exec" => exec::run(&case),
+            "status" => exec::run_status(&case),
             other  => panic!("unknown case kind '{other}'"),
         };
         let text: Vec<String> = trace.iter().map(|v| v.to_string()).collect();
